@@ -78,6 +78,7 @@ def _builtin_table_escape(ctx, repo):
         if not mod.name.startswith('pylatexenc.latexencode') or mod.name.endswith(('_uni2latexmap', '_uni2latexmap_xml')):
             continue
         uses_ = []     # (use node, local text, scope)
+        followed_ = set()
         for imp in [x for x in ast.walk(mod.tree) if isinstance(x, ast.ImportFrom)]:
             scope = enclosing_func(imp) or mod.tree
             if imp.module and imp.module.endswith(('_uni2latexmap', '_uni2latexmap_xml')):
@@ -108,6 +109,9 @@ def _builtin_table_escape(ctx, repo):
                         verdict, how = True, call_name(par) + '(...)'
                     elif isinstance(par, ast.keyword) and par.arg in ('rule',):
                         verdict, how = True, 'rule= of a conversion rule (read by the encoder only)'
+                    elif isinstance(par, ast.Call) and call_name(par) == 'UnicodeToLatexConversionRule' and \
+                            len(par.args) > 1 and par.args[1] is use:
+                        verdict, how = True, 'rule argument of a conversion rule (read by the encoder only)'
                     elif isinstance(par, ast.Subscript) and par.value is use and isinstance(par.ctx, ast.Load):
                         verdict, how = True, 'subscript read'
                     elif isinstance(par, (ast.For, ast.comprehension)) or (
@@ -115,6 +119,16 @@ def _builtin_table_escape(ctx, repo):
                         verdict, how = True, 'iteration / membership'
                     elif isinstance(par, ast.Return):
                         verdict, how = False, 'returned as such'
+                    elif isinstance(par, ast.Assign) and len(par.targets) == 1 and isinstance(par.targets[0], ast.Name) \
+                            and not isinstance(scope, ast.Module) and par.value is use:
+                        # a local alias inside a function: every use of the alias is classified instead
+                        al_ = par.targets[0].id
+                        more = [(x, al_, scope) for x in ast.walk(scope) if isinstance(x, ast.Name) and x.id == al_
+                                and isinstance(x.ctx, ast.Load)]
+                        if (use, local) not in followed_:
+                            followed_.add((use, local))
+                            uses_.extend(more)
+                        verdict, how = True, 'local alias %s (its uses are classified)' % al_
                     elif isinstance(par, ast.Assign):
                         verdict, how = False, 'stored as such in %s' % short(par.targets[0])
                     elif isinstance(par, ast.Subscript) and isinstance(par.ctx, (ast.Store, ast.Del)):
@@ -319,7 +333,12 @@ def run(ctx):
             ctx.refuted('R13d', m, m.cls('UnicodeToLatexEncoder'), 'policy %s missing' % pol,
                         construct='policy ' + pol)
             continue
-        rets = [x for x in iter_own(f) if isinstance(x, ast.Return)]
+        # returned expressions with the locals substituted (a hex rendering held in a local)
+        try:
+            rets = [ast.Return(value=c.sub) for c in symex.Walker(
+                want_returns=True, pure=('HexstrN', 'hex', 'format', 'ord')).run(f) if c.kind == 'return']
+        except symex.TooManyPaths:
+            rets = []
         ok = bool(rets)
         lit = ''
         for r in rets:
@@ -476,13 +495,34 @@ def _table_passthrough(ctx, repo):
     except symex.TooManyPaths as e:
         ctx.unknown('R13k', gm, fn, str(e), construct='built-in rule sets')
         return
+    # a copy of a table that is edited before it is handed on is no longer the checked table
+    copies = {}
+    for st in iter_own(fn):
+        if isinstance(st, ast.Assign) and len(st.targets) == 1 and isinstance(st.targets[0], ast.Name) and \
+                is_table(st.value):
+            copies[st.targets[0].id] = st
+    edits = []
+    for x in ast.walk(fn):
+        if isinstance(x, ast.Subscript) and isinstance(x.ctx, (ast.Store, ast.Del)) and isinstance(x.value, ast.Name) \
+                and x.value.id in copies:
+            edits.append((x.value.id, x))
+        if isinstance(x, ast.Call) and call_name(x) in ('update', 'setdefault', 'pop', 'popitem', 'clear', '__setitem__') \
+                and isinstance(call_recv(x), ast.Name) and call_recv(x).id in copies:
+            edits.append((call_recv(x).id, x))
+    for nm_, x in edits:
+        ctx.refuted('R13k', gm, enclosing_stmt(x) or x, 'the copy %s of a built-in table is edited (%s) before it is handed '
+                    'to the rule: the added or changed entries were not checked -- a replacement text that is a raw '
+                    'LaTeX-active character (%% { $ # \\) reaches the output' % (nm_, short(enclosing_stmt(x) or x, 60)),
+                    construct='get_builtin_conversion_rules: edit of ' + nm_)
     n = 0
     for cs in cases:
-        rt = kwarg(cs.sub, 'rule_type')
+        rt = kwarg(cs.sub, 'rule_type') or (cs.sub.args[0] if cs.sub.args else None)
         if rt is None or unparse(rt) != 'RULE_DICT':
             continue
         n += 1
-        r = kwarg(cs.sub, 'rule')
+        r = kwarg(cs.sub, 'rule') or (cs.sub.args[1] if len(cs.sub.args) > 1 else None)
+        # a local that holds the result of a getter call: its defining call
+        r = symex.resolve(r, cs.env) if r is not None else None
         ctx.decide('R13k', r is not None and is_table(r), gm, cs.node,
                    'rule set [%s]: the dictionary rule is the built-in table itself (or a view/copy): %s'
                    % (' & '.join(cs.cond_src())[:60], short(r, 60) if r is not None else '?'),
